@@ -23,6 +23,18 @@ from .num import XR, fin, pinf, ninf, xval, is_fin, I, R, B
 IDX_SKOLEM = False
 
 
+def allows(tg, r):
+    """conditions under which a target list (from a `modifies` clause) permits writing slot r"""
+    out = []
+    for ent in tg:
+        if isinstance(ent[0], str) and ent[0] == "where":
+            out.append(ent[1](r))
+        else:
+            g, t = ent
+            out.append(z3.And(g, r == t) if g is not None else r == t)
+    return out
+
+
 class Unsupported(Exception):
     pass
 
@@ -144,7 +156,7 @@ class Unit:
         self.base = {}
         self.bg = []
         self.obls = []
-        self.used = set()
+        self.used = set(self.contract.axioms)
         self.assumed = set()
         self.inlined = set()
         self.called = set()
@@ -334,9 +346,7 @@ class Unit:
                 if tg == "*":
                     continue
                 src = frame_from.get(k) if frame_from is not None and k in frame_from else (old if frame_from is None else self.get_arr(State(), k, ty))
-                conds = [r > 0, r < bound]
-                for g, t in tg:
-                    conds.append(z3.Not(z3.And(g, r == t)) if g is not None else r != t)
+                conds = [r > 0, r < bound] + [z3.Not(c) for c in allows(tg, r)]
                 st.pc.append(z3.ForAll([r], z3.Implies(z3.And(*conds), A[r] == src[r]), qid=QID(), patterns=[A[r]]))
         return new
 
